@@ -35,6 +35,21 @@ class _Eliminator(DefaultTransformVisitor):
         self.unused_fv = unused_fv
         self.eliminated = False
 
+    def _always_returns(self, stmt: Stmt) -> bool:
+        """Does every execution of `stmt` that terminates end in a `return`?"""
+        match stmt:
+            case ReturnStmt():
+                return True
+            case ContextStmt():
+                return len(stmt.body.stmts) > 0 and self._always_returns(stmt.body.stmts[-1])
+            case IfStmt():
+                return (
+                    len(stmt.ift.stmts) > 0 and self._always_returns(stmt.ift.stmts[-1])
+                    and len(stmt.iff.stmts) > 0 and self._always_returns(stmt.iff.stmts[-1])
+                )
+            case _:
+                return False
+
     def _is_empty_block(self, block: StmtBlock) -> bool:
         return len(block.stmts) == 1 and isinstance(block.stmts[0], PassStmt)
 
@@ -213,7 +228,7 @@ class _Eliminator(DefaultTransformVisitor):
         else:
             # visit statements
             stmts: list[Stmt] = []
-            for stmt in block.stmts:
+            for i, stmt in enumerate(block.stmts):
                 s, _ = self._visit_statement(stmt, ctx)
                 match s:
                     case None:
@@ -224,6 +239,15 @@ class _Eliminator(DefaultTransformVisitor):
                         stmts.extend(s.stmts)
                     case _:
                         raise RuntimeError(f'unexpected: {s}')
+                k = next((j for j, t in enumerate(stmts) if self._always_returns(t)), None)
+                if k is not None:
+                    # a statement that always returns (e.g. spliced in from an
+                    # `if True:`) ends the block: whatever follows is unreachable
+                    # and must go -- the syntax check rejects it
+                    if k + 1 < len(stmts) or i + 1 < len(block.stmts):
+                        self.eliminated = True
+                    stmts = stmts[:k + 1]
+                    break
 
             # empty block -> add a pass statement
             if len(stmts) == 0:
